@@ -148,7 +148,8 @@ def script(rng, case, idx):
                         # the container's volume, relative to what the container holds (+ the observer's own rounding)
                         amt = abs(c.contents.get(s, 0.0))
                         vol = abs(c.volume)
-                        relres = (RQ / amt if amt > 0 else 0.0) + (RQ / vol if vol > 0 else 0.0)
+                        # (an amount stored as 0 is anything below half a quantum of this configuration: nothing is resolved)
+                        relres = (RQ / amt if amt > 0 else 1.0) + (RQ / vol if vol > 0 else 0.0)
                         # (the observers and the solution builders upstream keep what the storage units resolve: there is no
                         # further quantum in moles or litres since fix 'convert_from_storage keeps what the storage unit
                         # resolves')
@@ -471,7 +472,7 @@ def finalize(m, tier):
                             m_, v_, p_ = cfg.split('/')
                             tol = rel * numpy.abs(xb) + 4 * 10.0 ** (-min(int(p_[1:]), 10))
                         if label.endswith('.plate_volume.uL'):
-                            tol = tol * 6 + 6 * 1.000001      # a sum of six wells, each rounded to the display precision
+                            tol = tol * 6 + 1.000001      # a sum of six wells, rounded to the display precision once
                         if kind in ('volume_display', 'moles_display', 'mass_display', 'tracking', 'instruction', 'step_dataframe'):
                             prec = DISPLAY.get(unit, DISPLAY['default']) if ctx != 'display' else {'default': 5, 'uL': 2, 'umol': 3, 'mg': 2}.get(unit, 5)
                             tol = tol + 10.0 ** (-prec) * 1.000001
